@@ -165,11 +165,15 @@ def r03_3(ctx):
             ctx.check(R, outs == {int(want)}, 'exceeded_by:%s,key%sbound' % (vname, {'lt': '<', 'eq': '=', 'gt': '>'}[ordv]),
                       'exceeded_by for %s bound with key %s bound yields %s, contract %s' % (vname, ordv, sorted(outs), want), fn=f)
     g = lib.fn('raw::Bound::is_inclusive')
-    for vname in ('Included', 'Excluded', 'Unbounded'):
+    if g is None:
+        ctx.missing(R, 'anchor:is_inclusive', 'Bound::is_inclusive not found (the bound helpers were redesigned)')
+    for vname in (('Included', 'Excluded', 'Unbounded') if g is not None else ()):
         outs = {bool_fold(p.ret())[1] if bool_fold(p.ret())[0] == 'const' else None for p in explore(g, oracle=bound_oracle(g, vi[vname], 'eq'), max_visits=1) if p.end == 'return'} if g else set()
         ctx.check(R, outs == {int(vname != 'Excluded')}, 'is_inclusive:' + vname, 'is_inclusive(%s) = %s' % (vname, sorted(outs, key=str)), fn=g)
     h = lib.fn('raw::Bound::is_empty')
-    for vname, emp in (('Included', 0), ('Included', 1), ('Excluded', 0), ('Excluded', 1), ('Unbounded', 0)):
+    if h is None:
+        ctx.missing(R, 'anchor:is_empty', 'Bound::is_empty not found (the bound helpers were redesigned)')
+    for vname, emp in ((('Included', 0), ('Included', 1), ('Excluded', 0), ('Excluded', 1), ('Unbounded', 0)) if h is not None else ()):
         outs = set()
         for p in explore(h, oracle=bound_oracle(h, vi[vname], 'eq', empty=emp), max_visits=1) if h else []:
             if p.end == 'return':
